@@ -190,6 +190,13 @@ func (d *OrderedDaemon) BackgroundWorker(name string, handler WorkerFunc, order 
 	d.lock.Lock()
 	defer d.lock.Unlock()
 
+	// the check above is not synchronized with the shutdown: check again while holding the lock,
+	// otherwise a worker could be registered (and started) after stopWorkers took its snapshot
+	// or after the daemon was cleared.
+	if d.IsStopped() {
+		return ErrDaemonAlreadyStopped
+	}
+
 	exWorker, workerExistsAlready := d.workers[name]
 	if workerExistsAlready {
 		if !d.running.Load() {
